@@ -6,12 +6,19 @@ CLAIMS["C15"] = dict(
          "over 4x4) over keys and values of the printable classes (alnum, space, '=', ',', '%', '+', ';' in keys, unreserved punctuation, blanks at the ends, empty value, "
          "';metadata'), from start states with 0, 2 and 179 entries, on the real Baggage against an ordered-list model: receiver unchanged, replace/remove semantics, "
          "GetValue of every key, arguments scribbled after the call, and extract(inject(b)) through the real BaggagePropagator and a map carrier rebuilds the same entries "
-         "in the same order; the produced header is decoded by an independent decoder and must be written in the token alphabet. "
+         "in the same order (with 181 entries: the first 180); the produced header is decoded by an independent decoder and must be written in the token alphabet. "
+         "At depth 1 every printable byte 0x20..0x7e is a one-byte key and a one-byte value (95 x 95, plus all punctuation in one string), so every byte outside the token "
+         "set is percent-encoded and decoded back in both positions. GetAllEntries with a callback returning false at call 0 / 1 / never reports the entries in order up to "
+         "that call (whether it stops there and what it returns is not documented for Baggage and not judged). "
          "(b) BaggagePropagator::Extract on all single (three short seeds, thorough six: double) point mutations of eleven seed headers over 22 byte classes, 35 kinds of "
          "percent escape at 10 member positions x 4 header positions, 179..360 members, 4095..4098/5000-byte members, 8191..8194/9000-byte headers, each in an exact-size heap "
          "block under ASan and into two caller contexts: soundness on every input (each kept entry is the decoding of one member, in order, key and value incl. metadata "
-         "printable, <= 180 entries, member and header limits), completeness on members written in the encoder's alphabet, caller's context returned when nothing is valid. "
+         "printable, <= 180 entries, member and header limits), completeness on members written in the encoder's alphabet (with more than 180 members in a header within the "
+         "size limit: on those among the first 180 members - both readings of the limit, 'at most 180 kept' and 'at most 180 read', agree there; invalid members are placed "
+         "inside and at the edge of the first 180), caller's context returned when nothing is valid. "
          "(c) CompositePropagator over every ordered subset of the five built-in propagators up to size 3 (thorough: all 326 ordered subsets): Inject equals the union of the "
          "individual injections (8 contexts x empty/pre-filled carrier), Extract equals the in-order fold of the individual Extracts over 3^5 carriers of absent/valid/invalid "
-         "header groups with pairwise different ids x 3 caller contexts, including the order of carrier accesses and context identity.",
+         "header groups with pairwise different ids x 3 caller contexts, including the order of carrier accesses and context identity; Fields() of the composite with a callback "
+         "returning false at every call position (and never) reports the concatenation of the parts' fields in order at least up to that call and returns true iff no call "
+         "returned false (as documented), each part's fields are exactly the keys its Inject writes, and every key the composite's Inject writes is one of its fields.",
     note=SEQ_NOTE)
